@@ -266,8 +266,8 @@ PROPS["C20"] = {
     "assumptions": [
         "decided, limit by limit, on the functions that enforce (or must enforce) it: ROWS -- Table::read_rows accepts exactly the streams of at most 65536 rows and Table::write_rows returns Ok only for at most 65536 rows (symmetric since fix 'row limit'); STRING REFERENCES -- StringRef::write refuses a reference above 16 bits in two-byte mode (error, not truncation) and StringRef::read accepts every two- or three-byte reference; COLUMN WIDTH -- kani:typeword_roundtrip: exactly the widths above 255 are refused by is_storable; STREAM NAMES -- streamname::is_valid == the statement's `accepted` (31 UTF-16 units after encoding)",
         "ValueRef::create is checked under a contract WITHOUT a capacity precondition (group poolcap): the obligation 'incref's capacity precondition holds at its call site' fails -- a listed KNOWN FINDING (the library panics instead of returning an error when the 65,536th distinct string is interned with two-byte references; changing incref to return an error would change a signature the repository's own unit tests pin)",
-        "COLUMNS -- group mktable: the checks of Package::create_table_with_name, i.e. the real body up to (excluding) `if self.tables.contains_key(..)`; everything after it (catalog rows, the new table) is replaced by an UNCONSTRAINED continuation (rule X14, logged with the number of lines dropped). Proved: a definition with more than 32 columns, no column, no primary key, an invalid table or column name, or a column the type word cannot hold (string width above 255) is refused with an error BEFORE the package is touched (package unchanged); and a definition within the limits with distinct column names passes every check (its result is the continuation's). Trusted: Table::is_valid_name / Column::is_valid_name as functions of the text (groups category, streamname), columns.iter().any(Column::is_primary_key) and the local HashSet<&str> as a set of texts (shims in the template)",
-        "NOT covered: catalog-name width limits (64/32 characters), 'leaves the package unchanged' after a refused call (C04), that Insert::exec refuses early (the fix adds that check, but Insert::exec is outside the verified set), everything cfb-level",
+        "COLUMNS -- group mktable: the checks of Package::create_table_with_name, i.e. the real body up to (excluding) `if self.tables.contains_key(..)`; everything after it (catalog rows, the new table) is replaced by an UNCONSTRAINED continuation (rule X14, logged with the number of lines dropped). Proved: a definition with more than 32 columns, no column, no primary key, an invalid table or column name, a table or column name of more than 32 characters (what the _Validation table holds; found and fixed: D22, such names failed on the LAST insert and left the table behind), or a column the type word cannot hold (string width above 255) is refused with an error BEFORE the package is touched (package unchanged); and a definition within the limits with distinct column names passes every check (its result is the continuation's). Trusted: Table::is_valid_name / Column::is_valid_name as functions of the text (groups category, streamname), columns.iter().any(Column::is_primary_key) and the local HashSet<&str> as a set of texts (shims in the template)",
+        "NOT covered: the other definitions that only the final _Validation insert refuses (enumerations whose joined text exceeds 255 characters, a foreign-key table name above 255 characters, a key column outside 1..32) still fail after the catalog rows are partly written; catalog-name width limits of the OTHER operations (64/32 characters), 'leaves the package unchanged' after a refused call (C04), that Insert::exec refuses early (the fix adds that check, but Insert::exec is outside the verified set), everything cfb-level",
     ],
 }
 
